@@ -60,7 +60,7 @@ def expected_rows(doc):
 
 
 # ---- lexical atoms of an exported note (independent of kernpy) -------------------------------------------------------
-_ATOM = re.compile(r'&+[()]|Ww|\d+(?:%\d+)?|[a-gA-G]+|(?:[#\-]+|n)(?:yy|YY|[xXiIjZyY])?|r|.', re.S)
+_ATOM = re.compile(r'&+[()]|Ww|xx|yy|\?\?|\[y|\(<|L>|\d+(?:%\d+)?|[a-gA-G]+|(?:[#\-]+|n)(?:yy|YY|[xXiIjZyY])?|r|.', re.S)
 
 
 def atoms(text):
